@@ -82,6 +82,12 @@ fn check_diagram(run: &Run, name: &str, d: &Diagram, labelname: &str, label: &(d
     }
     // signs
     let adm = admissible_sign_vectors(d);
+    if adm.len() > 1 {
+        run.add("diagrams_with_orientation_freedom", 1);
+        if adm[0] != signs {
+            run.add("library_orientation_differs_from_generator", 1);
+        }
+    }
     if !adm.contains(&signs) {
         fail(format!("crossing signs {signs:?} are not those of any orientation consistent with the under strands; admissible: {adm:?}"));
     }
